@@ -194,6 +194,19 @@ def run_case(case, ctx):
         except Exception as e:
             ctx.violation("%s:codeType2Portable:raises:%s" % (htag, type(e).__name__), "%r (%s)" % (e, where))
             continue
+        # the same conversion with the version spelled out, in every form callers have at hand (pair, triple, 5-tuple slice)
+        for vform in (tuple(sys.version_info[:2]), tuple(sys.version_info[:3])):
+            ctx.count("explicit_version_forms")
+            try:
+                p2 = codeType2Portable(co, vform)
+                n2 = p2.to_native()
+                if type(p2) is not want_cls or portableCodeType(vform) is not want_cls:
+                    ctx.violation("%s:portable-type:explicit-version" % htag, "codeType2Portable(co, %r) gives %s, portableCodeType(%r) %s, host needs %s (%s)"
+                                  % (vform, type(p2).__name__, vform, portableCodeType(vform).__name__, want_cls.__name__, where))
+                elif n2 != co and not canary:
+                    ctx.violation("%s:roundtrip:explicit-version" % htag, "codeType2Portable(co, %r).to_native() != original (%s)" % (vform, where))
+            except Exception as e:
+                ctx.violation("%s:explicit-version:raises:%s" % (htag, type(e).__name__), "%r with version %r (%s)" % (e, vform, where))
         if type(p) is not want_cls or portableCodeType() is not want_cls:
             ctx.violation("%s:portable-type" % htag, "got %s / %s, host needs %s (%s)" % (type(p).__name__, portableCodeType().__name__, want_cls.__name__, where))
         # portable carries the same values
